@@ -679,6 +679,13 @@ class HolEnv:
         self.vars = {i: Var(self.names[i], T) for i, T in self.types.items()}
         self.arity = {0: 0, 1: 0, 2: 0, 3: 0, 4: 1, 5: 1, 6: 2, 7: 2}
 
+    def from_hol(self, T):
+        if T.is_comb():
+            return app(self.from_hol(T.fun), self.from_hol(T.arg))
+        if T.name.startswith("k") and T.name[1:].isdigit():
+            return atom(LIFT + int(T.name[1:]))
+        return atom(self.names.index(T.name))
+
     def to_hol(self, t):
         if t[0] == "a":
             if t[1] >= LIFT:
@@ -894,6 +901,32 @@ def naive_terms(eqs, universe):
     return fl, Naive(consts, combs, set(range(1, len(fl.terms) + 1)))
 
 
+class Trace(list):
+    """The partitions after every op (the list itself) plus, per op, the wrapper's internal constant table
+    `index` (None when the attribute is not there) and the answer of a `test` op."""
+
+    def __init__(self):
+        super().__init__()
+        self.tables = []
+        self.answers = []
+
+
+def term_sexp(t):
+    return t[1] if t[0] == "a" else [term_sexp(t[1]), term_sexp(t[2])]
+
+
+def sexp_term(x):
+    return atom(int(x)) if isinstance(x, str) else app(sexp_term(x[0]), sexp_term(x[1]))
+
+
+def wrapper_table(env, cl):
+    """CongClosureHOL.index (constant name s<k> -> term) as [(k, term)], or None if it cannot be read."""
+    try:
+        return sorted((int(k[1:]), env.from_hol(t)) for k, t in cl.index.items())
+    except Exception:  # noqa
+        return None
+
+
 def run_hol(ctx, env, congc, hops, limit=60):
     """Runs one term-level sequence on the real CongClosureHOL.  Returns (violation or None, parts)
     where parts is the list of term partitions (as sorted id pairs w.r.t. the harness flattener)
@@ -905,7 +938,7 @@ def run_hol(ctx, env, congc, hops, limit=60):
     cl = congc.CongClosureHOL()
     fl = Flattener()
     merged, sorried = [], []
-    parts = []
+    parts = Trace()
     H = env.to_hol
     with time_limit(limit):
         for i, op in enumerate(hops):
@@ -928,6 +961,7 @@ def run_hol(ctx, env, congc, hops, limit=60):
                     merged.append((op[1], op[2]))
                 elif kind == "test":
                     got = bool(cl.test(H(op[1]), H(op[2])))
+                    parts.answers.append(got)
                     want = eqn(op[1], op[2])
                     if got != want:
                         return ("hol-test-" + ("unsound" if got else "incomplete"), i,
@@ -971,6 +1005,9 @@ def run_hol(ctx, env, congc, hops, limit=60):
             if part != want_part:
                 return ("hol-partition", i, "after op %d the classes %s differ from the congruence closure %s" % (i, part, want_part)), parts
             parts.append(part)
+            parts.tables.append(wrapper_table(env, cl))
+            if len(parts.answers) < len(parts):
+                parts.answers.append(None)
     return None, parts
 
 
@@ -1003,6 +1040,7 @@ def report_hol(ctx, env, congc, hops, v, origin=None):
 
 def check_hol_batch(ctx, env, congc, seqs):
     lines, parts_all = [], []
+    hol_lines = {}
     for hops in seqs:
         nm = sum(1 for o in hops if o[0] == "merge")
         ctx.case(("hol", tuple(hops)), nontrivial=nm >= 2)
@@ -1025,16 +1063,47 @@ def check_hol_batch(ctx, env, congc, seqs):
         fl, spans = flatten_all([h[:3] for h in hops])
         core = [o for o in fl.ops if o[0] in ("add", "mc", "mf")]
         lines.append(ops_line(core))
+        hol_lines[len(lines) - 1] = sexp.dumps(["hol"] + [[{"addterm": "add"}.get(h[0], h[0])] + [term_sexp(x) for x in h[1:3]] for h in hops])
         # partitions after each high-level op = model partition after the last core op of its span
         parts_all.append((parts, fl, spans))
-    model = ctx.lean_driver(EXE, lines) if lines else []
+    order = sorted(hol_lines)
+    ctx.log("hol: implementation side done (%d histories)" % len(seqs))
+    model = ctx.lean_driver(EXE, lines + [hol_lines[i] for i in order]) if lines else []
+    ctx.log("hol: model side done")
     if model is None:
         return False
-    ndis = 0
+    wmodel = dict(zip(order, model[len(lines):]))
+    ndis = ntab = 0
     for idx, hops in enumerate(seqs):
         if parts_all[idx] is None:
             continue
         parts, fl, spans = parts_all[idx]
+        # the wrapper model (HolModel.lean): constant table and test answers after every call
+        wm = sexp.loads(wmodel[idx]) if idx in wmodel else "bad-op"
+        if isinstance(wm, list) and len(wm) == len(hops):
+            for hi, (hop, o) in enumerate(zip(hops, wm)):
+                tab = o if hop[0] in ("merge", "addterm") else o[1]
+                mtab = [(int(e[0]), sexp_term(e[1])) for e in tab[1:]]
+                itab = parts.tables[hi] if hi < len(parts.tables) else None
+                bad = None
+                if itab is None:
+                    ctx.count("hol-table-not-readable")
+                elif itab != mtab:
+                    bad = "after op %d the wrapper's table is %s, the model's %s" % (hi, [(k, term_str(t)) for k, t in itab], [(k, term_str(t)) for k, t in mtab])
+                else:
+                    ctx.count("hol-table-compared")
+                if hop[0] == "test" and hi < len(parts.answers) and parts.answers[hi] is not None and o[0] != ("T" if parts.answers[hi] else "F"):
+                    bad = "test at op %d answered %s, the wrapper model %s" % (hi, parts.answers[hi], o[0])
+                if bad:
+                    ntab += 1
+                    if ntab <= 3:
+                        ctx.broken("correspondence:c17:hol-wrapper", "hops=%s %s" % (hops_json(hops), bad))
+                        ctx.coverage["disagreements_checked"] += 1
+                    break
+        else:
+            ntab += 1
+            if ntab <= 3:
+                ctx.broken("correspondence:c17:hol-wrapper", "hops=%s model answered %s" % (hops_json(hops), str(wm)[:100]))
         m = sexp.loads(model[idx])
         mparts = [parse_model_out(x) for x in m] if isinstance(m, list) else []
         # index of the last mutating core op belonging to each high-level op
